@@ -91,6 +91,7 @@ def check(ids, thorough=False):
         if not os.path.exists(mp):
             continue
         meta = json.load(open(mp))
+        meta["checks"] = {}
         st = subprocess.run(["git", "-C", REPO, "status", "--porcelain", "--untracked-files=no"], capture_output=True, text=True).stdout
         if st.strip():
             sys.exit("/repo not clean")
@@ -100,12 +101,13 @@ def check(ids, thorough=False):
             json.dump(meta, open(mp, "w"), indent=1)
             print(d, "patch does not apply"); continue
         try:
-            for tier in (["quick"] + (["thorough"] if thorough else [])):
+            plan = [(meta["property"], "quick")] + ([(meta["property"], "thorough")] if thorough else []) + [(p2, "quick") for p2 in meta.get("also_try", [])]
+            for prop, tier in plan:
                 t0 = time.time()
-                r = subprocess.run([os.path.join(ROOT, "run.sh"), meta["property"], tier], capture_output=True, text=True)
+                r = subprocess.run([os.path.join(ROOT, "run.sh"), prop, tier], capture_output=True, text=True)
                 sig = next((l.strip()[2:] for l in r.stdout.splitlines() if l.startswith("  # ")), "")
                 verdict = {0: "MISSED", 1: "caught"}.get(r.returncode, "inconclusive rc=%d" % r.returncode)
-                meta["checks"]["./run.sh %s %s" % (meta["property"], tier)] = {"verdict": verdict, "first_signature": sig[:300], "secs": round(time.time() - t0, 1)}
+                meta["checks"]["./run.sh %s %s" % (prop, tier)] = {"verdict": verdict, "first_signature": sig[:300], "secs": round(time.time() - t0, 1)}
                 print("%-8s %-8s %-10s %s" % (d, tier, verdict, sig[:110]), flush=True)
                 if r.returncode == 1:
                     break
